@@ -75,7 +75,12 @@ def main():
             results[c] = r
             print(c, r["status"], r.get("keys") or r.get("why") or r.get("expected"), flush=True)
     os.makedirs(os.path.join(VERIF, "regress"), exist_ok=True)
-    json.dump(results, open(os.path.join(VERIF, "regress", "RESULTS.json"), "w"), indent=1, sort_keys=True)
+    rp = os.path.join(VERIF, "regress", "RESULTS.json")
+    if only and os.path.exists(rp):
+        merged = json.load(open(rp))
+        merged.update(results)
+        results = merged
+    json.dump(results, open(rp, "w"), indent=1, sort_keys=True)
     missed = [c for c, r in results.items() if r["status"] == "MISSED"]
     print("%d repairs: %d reported again when reverted, %d skipped, %d missed" % (
         len(results), sum(1 for r in results.values() if r["status"].startswith("reported")),
